@@ -198,6 +198,8 @@ var c17Alphabet = [][]string{
 	{"straße@example.org", "STRASSE@example.org"}, // NOT equivalent under simple lower-casing; only idempotence is asserted
 	{"x@bücher.example", "x@xn--bcher-kva.example", "x@bücher.example"},
 	{"postmaster", "POSTMASTER"},
+	// NFC / NFD spellings of a letter whose lower-casing is special (U+0130 vs I + U+0307)
+	{"\u0130stanbul@example.org", "I\u0307stanbul@example.org"},
 	// A-labels that are not the first label, and CleanDomain staying inside the class
 	{"u@mail.тест.org", "u@mail.xn--e1aybc.org", "U@MAIL.XN--E1AYBC.ORG", "u@Mail.ТЕСТ.org"},
 	{"u@bücher.тест", "u@xn--bcher-kva.xn--e1aybc", "u@bücher.xn--e1aybc"},
@@ -233,7 +235,7 @@ func harness_C17_alphabet() {
 		verifFail("C17.cleandomain-leaves-class")
 	}
 	kb, _ := ForLookup(b)
-	if g != 3 && g != 10 {
+	if g != 3 && g != 11 {
 		if ka != kb {
 			verifFail("C17.variants-one-key")
 		}
